@@ -29,6 +29,7 @@ type Failure struct {
 	Expected string  `json:"expected"`
 	V        *VCase  `json:"v,omitempty"`
 	Ops      []HOp   `json:"ops,omitempty"`
+	W        *WCase  `json:"w,omitempty"`
 }
 
 func mkF(fam, kind, fn string, p Params, x float64, obs, exp string) Failure {
@@ -344,6 +345,10 @@ func hunt(o Opts) {
 					vecCheck(c.Fam, *c.V, report, &tried)
 					continue
 				}
+				if c.W != nil {
+					wCheck(*c.W, c.Fn, report, &tried)
+					continue
+				}
 				f := famByName(c.Fam)
 				if f == nil || f.Name == "FDelta" {
 					continue
@@ -410,6 +415,7 @@ func hunt(o Opts) {
 	vecHunt(o, report, &tried)
 	histHunt(o, report, &tried)
 	vhistHunt(o, report, &tried)
+	wideHunt(o, report, &tried)
 	// unnormalised categorical weights: the textbook family needs sum theta = 1
 	if f := famByName("FCategorical"); f != nil {
 		p := Params{[]float64{0.25, 0.5, 4}, nil}
